@@ -65,6 +65,8 @@ def run_cases(ctx, sub, cases, label, nontrivial=lambda c: True, args=(), timeou
             if isinstance(r.get("obs"), dict) and "conc" in r["obs"]:
                 case["conc"] = r["obs"]["conc"]
             sig = f["sig"]
+            if sig == "harness-panic":      # the harness' own materialisation failed: no verdict
+                raise vlib.MachineryError("route harness %s could not materialise a case: %s" % (sub, f.get("detail")))
             ctx.report(sig, (f.get("detail") or "")[:1500], case=case, harness="route", cmd=sub)
         ctx.count({k: v for k, v in c.items() if k != "id"}, nontrivial=nontrivial(c))
     if checked == 0:
@@ -134,14 +136,15 @@ def check_c11(ctx):
     g1 = {"ALPHA": "small", "RULES": 2}
     ctx.cov["constants"]["Gen_Basic"] = [g1]
     cases += gen(ctx, "GenBasic", "Gen_Basic.cfg", g1)
-    for d, num in (({"ALPHA": "small", "RULES": 3}, 250), ({"ALPHA": "full", "RULES": 4}, 150)) if q else \
-                  (({"ALPHA": "full", "RULES": 2}, 0), ({"ALPHA": "small", "RULES": 3}, 3000),
-                   ({"ALPHA": "full", "RULES": 4}, 3000)):
+    # larger tables: random walks of GenBasic (each walk prints the tables of 0..RULES pairs it passes)
+    for d, num in (({"ALPHA": "small", "RULES": 3}, 60), ({"ALPHA": "full", "RULES": 4}, 40)) if q else \
+                  (({"ALPHA": "full", "RULES": 2}, 0), ({"ALPHA": "small", "RULES": 3}, 1500),
+                   ({"ALPHA": "full", "RULES": 4}, 1200)):
         ctx.cov["constants"]["Gen_Basic"].append(dict(d, mode="simulate num=%d" % num if num else "mc"))
         if num:
-            cases += gen(ctx, "GenBasic", "Gen_Basic.cfg", d, mode="sim", num=num, depth=2, timeout=1500)
+            cases += gen(ctx, "GenBasic", "Gen_Basic.cfg", d, mode="sim", num=num, depth=d["RULES"] + 2, timeout=2400)
         else:
-            cases += gen(ctx, "GenBasic", "Gen_Basic.cfg", d, timeout=1500)
+            cases += gen(ctx, "GenBasic", "Gen_Basic.cfg", d, timeout=2400)
     cases = dedup(cases)
     run_cases(ctx, "basic", cases, "C11", nontrivial=lambda c: len(c["rules"]) > 0)
 
@@ -167,7 +170,7 @@ def check_c12(ctx):
     g1 = {"ADV": 2, "LRULES": 1}
     ctx.cov["constants"]["Gen_Lookup"] = [g1]
     cases += gen(ctx, "GenLookup", "Gen_Lookup.cfg", g1)
-    for d, num in (({"ADV": 3, "LRULES": 2}, 300),) if q else (({"ADV": 2, "LRULES": 2}, 4000), ({"ADV": 3, "LRULES": 2}, 4000)):
+    for d, num in () if q else (({"ADV": 2, "LRULES": 2}, 4000), ({"ADV": 3, "LRULES": 1}, 4000)):
         ctx.cov["constants"]["Gen_Lookup"].append(dict(d, mode="simulate num=%d" % num))
         cases += gen(ctx, "GenLookup", "Gen_Lookup.cfg", d, mode="sim", num=num, depth=2, timeout=1500)
     cases = dedup(cases)
@@ -196,14 +199,14 @@ def check_c13(ctx):
     allk = '{"sdc", "gslb", "ctable", "file"}'
     if q:
         gens = [({"KINDS": allk, "DEV": 1}, None), ({"KINDS": '{"gslb", "ctable", "file"}', "DEV": 2}, None),
-                ({"KINDS": '{"sdc"}', "DEV": 2}, 1200), ({"KINDS": '{"sdc"}', "DEV": 3}, 300)]
+                ({"KINDS": '{"sdc"}', "DEV": 2}, 400), ({"KINDS": '{"sdc"}', "DEV": 3}, 150)]
     else:
-        gens = [({"KINDS": allk, "DEV": 2}, None), ({"KINDS": allk, "DEV": 3}, 12000)]
+        gens = [({"KINDS": allk, "DEV": 2}, None), ({"KINDS": allk, "DEV": 3}, 5000)]
     ctx.cov["constants"]["Gen_Conf"] = []
     for d, num in gens:
         ctx.cov["constants"]["Gen_Conf"].append(dict(d, mode="simulate num=%d" % num if num else "mc"))
         if num:
-            cases += gen(ctx, "GenConf", "Gen_Conf.cfg", d, mode="sim", num=num, depth=4, timeout=1500)
+            cases += gen(ctx, "GenConf", "Gen_Conf.cfg", d, mode="sim", num=num, depth=d["DEV"] + 2, timeout=2400)
         else:
             cases += gen(ctx, "GenConf", "Gen_Conf.cfg", d, timeout=2400)
     cases = dedup(cases)
